@@ -70,7 +70,7 @@ PROPS["C08"] = dict(engines=["atwindow", "apartition"], design="5/C08",
          "runs of timed_window, timed_window_unique (first/last) and partition(n, timeout, key) on the virtual clock are validated event by event.",
     note="Trusted: TLC; virtual clock advanced only while the loop is idle (timers fire on time); integer intervals; <= 5 elements, <= 3 keys.")
 
-PROPS["C18"] = dict(engines=["asource"], design="5/C18",
+PROPS["C18"] = dict(engines=["asource", "asrcfile"], design="5/C18",
     technique="TLA+ spec SourceLoop (pool of run-loop instances, start/stop as environment actions at every suspension point; TLC exhaustive) + trace validation of real from_periodic / from_iterable sources under enumerated start/stop histories",
     text="TLC checks AtMostOneActive, InOrderOnce, OneInFlight, NoCycleWhileStopped, PollSpacing and the idempotence action properties for all placements of "
          "<= 6 start/stop calls; the unguarded start() of the pinned tree is refuted as a sensitivity check; recorded runs of the real sources are validated with the "
